@@ -172,8 +172,15 @@ pub struct Cell {
     pub started: AtomicU64,
     pub finished: AtomicU64,
     pub n: AtomicI64,
+    /// largest values of the program's `bad` / `hbad` counters seen (they start over when the
+    /// resource is restarted)
     pub bad: AtomicI64,
     pub hbad: AtomicI64,
+    /// program bodies executed since the spawn, counted by the driver through the token echo
+    /// (the program's own `n` starts over when the resource is restarted)
+    pub bodies: AtomicI64,
+    /// retained variable `r` as the last executed body left it
+    pub rout: AtomicI64,
 }
 
 /// One executed program body, as its resource's I/O driver saw it in `write_outputs`:
@@ -200,24 +207,29 @@ struct Drv {
     cell: Arc<Cell>,
     log: Arc<CycleLog>,
     res: u8,
-    last_n: i32,
+    token: i32,
 }
 
 impl IoDriver for Drv {
-    fn read_inputs(&mut self, _inputs: &mut [u8]) -> Result<(), RuntimeError> {
+    fn read_inputs(&mut self, inputs: &mut [u8]) -> Result<(), RuntimeError> {
+        self.token = self.token.wrapping_add(1);
+        if inputs.len() >= 4 {
+            inputs[..4].copy_from_slice(&self.token.to_le_bytes());
+        }
         self.cell.started.fetch_add(1, SeqCst);
         Ok(())
     }
     fn write_outputs(&mut self, o: &[u8]) -> Result<(), RuntimeError> {
-        if o.len() >= 60 {
+        if o.len() >= 68 {
             let d = |k: usize| i32::from_le_bytes([o[4 * k], o[4 * k + 1], o[4 * k + 2], o[4 * k + 3]]);
             let n = d(0);
             self.cell.n.store(n as i64, SeqCst);
-            self.cell.bad.store(d(1) as i64, SeqCst);
-            self.cell.hbad.store(d(14) as i64, SeqCst);
-            if n != self.last_n {
-                // the program body ran in this cycle
-                self.last_n = n;
+            self.cell.bad.fetch_max(d(1) as i64, SeqCst);
+            self.cell.hbad.fetch_max(d(14) as i64, SeqCst);
+            if d(15) == self.token {
+                // the program body ran in this cycle (it echoed this cycle's token)
+                self.cell.rout.store(d(16) as i64, SeqCst);
+                self.cell.bodies.fetch_add(1, SeqCst);
                 let mut log = self.log.entries.lock().unwrap();
                 if log.len() < LOG_CAP {
                     log.push(Entry {
@@ -302,6 +314,8 @@ pub struct RepStats {
     pub pause_unobserved: bool,
     pub chased: bool,
     pub log_truncated: bool,
+    pub restart_signals: u32,
+    pub fault_restarts: u64,
 }
 
 struct Live {
@@ -327,6 +341,7 @@ struct Live {
     joined: Option<bool>,
     name: String,
     tid: Option<i32>,
+    restart: RestartSignal,
 }
 
 struct Rig<'a> {
@@ -355,8 +370,10 @@ fn err_v<T>(m: String) -> Result<T, RepEnd> {
     Err(RepEnd::Violation(m))
 }
 
+pub type RestartSignal = Arc<Mutex<Option<trust_runtime::RestartMode>>>;
+
 pub struct Prepared {
-    pub runners: Vec<(ResourceRunner<AnyClock>, Arc<Cell>, Arc<StoreLog>, AnyClock)>,
+    pub runners: Vec<(ResourceRunner<AnyClock>, Arc<Cell>, Arc<StoreLog>, AnyClock, RestartSignal)>,
     pub shared: SharedGlobals,
     pub cycle_log: Arc<CycleLog>,
 }
@@ -384,10 +401,23 @@ pub fn prepare(s: &Script, clock_kind: u8, gate: Option<&Arc<StartGate>>) -> Res
         let res = &s.resources[i];
         let cell = Arc::new(Cell::default());
         let log = Arc::new(StoreLog::default());
+        // the input image is sized lazily; the driver needs its 4 token bytes to exist
+        let (ins, outs, mem) = (rt.io().inputs().len().max(4), rt.io().outputs().len().max(68), rt.io().memory().len());
+        rt.io_mut().resize(ins, outs, mem);
         rt.add_io_driver(
             "c20",
-            Box::new(Drv { cell: cell.clone(), log: cycle_log.clone(), res: i as u8, last_n: 0 }),
+            Box::new(Drv { cell: cell.clone(), log: cycle_log.clone(), res: i as u8, token: 0 }),
         );
+        if res.fault_restart {
+            rt.set_fault_policy(trust_runtime::watchdog::FaultPolicy::Restart);
+        }
+        if let Some(t) = res.watchdog_restart_ns {
+            rt.set_watchdog_policy(trust_runtime::watchdog::WatchdogPolicy {
+                enabled: true,
+                timeout: Duration::from_nanos(t),
+                action: trust_runtime::watchdog::WatchdogAction::Restart,
+            });
+        }
         rt.set_retain_store(
             Some(Box::new(Store { log: log.clone(), spin: res.store_spin, init: res.retain_init })),
             res.retain_interval_ns.map(Duration::from_nanos),
@@ -405,13 +435,15 @@ pub fn prepare(s: &Script, clock_kind: u8, gate: Option<&Arc<StartGate>>) -> Res
             },
             iters: Arc::new(AtomicU64::new(0)),
         };
-        let mut runner = ResourceRunner::new(rt, clock.clone(), Duration::from_nanos(s.interval_ns));
+        let signal: RestartSignal = Arc::new(Mutex::new(None));
+        let mut runner = ResourceRunner::new(rt, clock.clone(), Duration::from_nanos(s.interval_ns))
+            .with_restart_signal(signal.clone());
         if res.gated {
             if let Some(g) = gate {
                 runner = runner.with_start_gate(g.clone());
             }
         }
-        runners.push((runner, cell, log, clock));
+        runners.push((runner, cell, log, clock, signal));
     }
     Ok(Prepared { runners, shared, cycle_log })
 }
@@ -426,7 +458,7 @@ pub fn evaluate(s: &Script, cells: &[Arc<Cell>], log: &CycleLog, shared: &Shared
             None => Err(format!("infrastructure: shared {name} missing")),
         }
     };
-    let n_final: Vec<i64> = cells.iter().map(|c| c.n.load(SeqCst)).collect();
+    let n_final: Vec<i64> = cells.iter().map(|c| c.bodies.load(SeqCst)).collect();
     for (i, c) in cells.iter().enumerate() {
         let bad = c.bad.load(SeqCst);
         if bad != 0 {
@@ -537,7 +569,20 @@ pub fn run_ticks(s: &Script, order: &[u8]) -> RepEnd {
     };
     let cells: Vec<Arc<Cell>> = runners.iter().map(|r| r.1.clone()).collect();
     for (k, who) in order.iter().enumerate() {
-        let i = *who as usize % runners.len();
+        let i = (*who & 0x3f) as usize % runners.len();
+        if *who & 0x80 != 0 {
+            // tick_with_shared does not look at the restart signal or the fault policy; restart
+            // the runner's runtime directly between two ticks (0x80 warm, 0xC0 cold). The
+            // shared set must be untouched by it.
+            let mode = if *who & 0x40 != 0 { trust_runtime::RestartMode::Cold } else { trust_runtime::RestartMode::Warm };
+            if let Err(e) = runners[i].0.runtime_mut().restart(mode) {
+                return RepEnd::Infra(format!("restart in tick order failed: {e:?}"));
+            }
+            if let Err(m) = evaluate(s, &cells, &cycle_log, &shared) {
+                return data_err(format!("{}after restart {k} (resource {i}) of order {order:?}: {m}", if m.starts_with("infrastructure:") { "infrastructure: " } else { "" }));
+            }
+            continue;
+        }
         if let Some(c) = runners[i].3.manual() {
             c.advance(Duration::from_millis(1));
         }
@@ -557,7 +602,7 @@ impl<'a> Rig<'a> {
         let (join_tx, join_rx) = mpsc::channel();
         let mut live = Vec::new();
         // nothing can fail between here and the end of the spawns except the spawn itself
-        for (i, (runner, cell, log, clock)) in prepared.into_iter().enumerate() {
+        for (i, (runner, cell, log, clock, restart)) in prepared.into_iter().enumerate() {
             let handle = match runner.spawn_with_shared(format!("c20-r{i}"), shared.clone()) {
                 Ok(h) => h,
                 Err(e) => {
@@ -593,6 +638,7 @@ impl<'a> Rig<'a> {
                 joined: None,
                 name: format!("c20-r{i}"),
                 tid: None,
+                restart,
             });
         }
         Ok(Rig {
@@ -850,9 +896,9 @@ impl<'a> Rig<'a> {
             }
         }
         for j in 0..self.s.counters.len() {
-            let before: Vec<i64> = self.live.iter().map(|l| l.cell.n.load(SeqCst)).collect();
+            let before: Vec<i64> = self.live.iter().map(|l| l.cell.bodies.load(SeqCst)).collect();
             let c = self.get_i64(&format!("c{j}"))?;
-            let after: Vec<i64> = self.live.iter().map(|l| l.cell.n.load(SeqCst)).collect();
+            let after: Vec<i64> = self.live.iter().map(|l| l.cell.bodies.load(SeqCst)).collect();
             let lo = self.expected_counter(j, &before);
             let hi = self.expected_counter(j, &after);
             if c < lo || c > hi {
@@ -999,7 +1045,7 @@ impl<'a> Rig<'a> {
             }
             Op::AwaitFault => {
                 if let Some(f) = self.s.fault_res() {
-                    if self.can_progress(f) {
+                    if self.can_progress(f) && self.s.resources[f].watchdog_restart_ns.is_none() {
                         let mut w = Waiter::new();
                         let mut seen = false;
                         loop {
@@ -1012,7 +1058,7 @@ impl<'a> Rig<'a> {
                                 ResourceState::Stopped => break,
                                 _ => {}
                             }
-                            if w.helper_expired(2000) {
+                            if w.helper_expired(250) {
                                 break;
                             }
                             self.drive(None);
@@ -1056,6 +1102,14 @@ impl<'a> Rig<'a> {
                 }
             }
             Op::Sample => self.sample()?,
+            Op::Restart { r, cold } => {
+                let i = *r as usize;
+                if !self.live[i].stop_called {
+                    let mode = if *cold { trust_runtime::RestartMode::Cold } else { trust_runtime::RestartMode::Warm };
+                    *self.live[i].restart.lock().unwrap() = Some(mode);
+                    self.stats.restart_signals += 1;
+                }
+            }
             Op::Snapshot(r) => {
                 let i = *r as usize;
                 if !self.live[i].stop_called {
@@ -1179,7 +1233,10 @@ impl<'a> Rig<'a> {
             self.stats.cycles += finished;
             match st {
                 ResourceState::Stopped => {
-                    if started != finished {
+                    if res.fault_restart && res.fault_at.is_some() && started >= finished {
+                        // FaultPolicy::Restart: every faulted cycle was followed by a warm restart
+                        self.stats.fault_restarts += started - finished;
+                    } else if started != finished {
                         return err_v(format!(
                             "resource {i} ended Stopped although its cycle {started} started and never completed (fault_at = {:?}, body count {n}, last_error {:?}): a faulted resource must end Faulted",
                             res.fault_at,
@@ -1188,7 +1245,9 @@ impl<'a> Rig<'a> {
                     }
                 }
                 ResourceState::Faulted => {
-                    let ok = res.fault_at.map(|k| k as i64 == n).unwrap_or(false)
+                    // (the private body count is stale when a restart preceded the faulting cycle)
+                    let ok = res.fault_at.map(|k| k as i64 == n || s.restartable(i)).unwrap_or(false)
+                        && !res.fault_restart
                         && started == finished + 1
                         && matches!(l.ctl.last_error(), Some(RuntimeError::DivisionByZero));
                     if !ok {
@@ -1223,6 +1282,9 @@ impl<'a> Rig<'a> {
                 }
             }
             if st == ResourceState::Stopped {
+                // what a restart does to the private retained variable is C09's business: the value
+                // is only compared for resources that are never restarted
+                let exact = !s.restartable(i);
                 let r_expected = if res.load_retain { res.retain_init } else { 0 } + n;
                 if finished >= 1 {
                     match stores.last() {
@@ -1231,7 +1293,7 @@ impl<'a> Rig<'a> {
                                 "resource {i} completed {finished} cycles and was stopped, but the retain store was never written (final retained r = {r_expected})"
                             ))
                         }
-                        Some((r, cnt)) if *r != r_expected || *cnt != 1 => {
+                        Some((r, cnt)) if exact && (*r != r_expected || *cnt != 1) => {
                             return err_v(format!(
                                 "resource {i}: last stored retain snapshot has r = {r} ({cnt} values), final retained value is r = {r_expected} (stores: {:?})",
                                 tail(&stores)
@@ -1240,7 +1302,7 @@ impl<'a> Rig<'a> {
                         _ => {}
                     }
                 } else if let Some((r, _)) = stores.last() {
-                    if *r != r_expected {
+                    if exact && *r != r_expected {
                         return err_v(format!(
                             "resource {i} never completed a cycle but stored r = {r}, retained value is {r_expected}"
                         ));
